@@ -727,4 +727,62 @@ theorem extend_view_refines : Statement_extend_view_refines := by
 /-- on `[10, 11, 12]` (cells 100 → 1000 → 1001): a view on the second cell reads `[11, 12]` -/
 example : iter (run 100 exEmpty [.extend [10, 11, 12]]).1.g 1000 = .ok [11, 12] := rfl
 
+/-! ### Round h (1): `LexOK` discharged for rdflib's real term syntax -/
+
+/-- `tbl` gives every member its rdflib term (IRI, blank node, plain / typed / language-tagged literal).
+    With the members' real `n3()` (`tokR`: `<…>`, `_:…`, `"…"` with `\\`, `\"`, `\r` escaped, `^^<…>`, `@…`), the
+    text of `c.n3()` is `n3Text tokR` of the members' terms, and the reader with the real term lexer `lexR`
+    recovers exactly those terms in order — for all members satisfying `WFR` (no `>` in an IRI, no blank in a
+    blank-node id or language tag, no line feed in a lexical form). -/
+def Statement_n3_real_terms : Prop :=
+  ∀ (tbl : Term → RTerm) (s : St) (h : Term) (xs : List Term), (∀ x ∈ xs, WFR (tbl x)) →
+    WF s h → asList s.g h = .ok xs →
+    n3 (fun k => tokR (tbl k)) s.g h = .ok (n3Text tokR (xs.map tbl)) ∧
+      readN3 lexR (n3Text tokR (xs.map tbl)) = some (xs.map tbl)
+
+theorem n3_real_terms : Statement_n3_real_terms := by
+  intro tbl s h xs hwf ⟨ps, inv⟩ ha
+  have hxs := asList_of_inv inv ha
+  subst hxs
+  refine ⟨?_, readN3_n3Text_on lexOK_real _ ?_⟩
+  · simp only [n3, inv.chain.iter, n3Text, List.map_map]
+    rfl
+  · intro t ht
+    obtain ⟨x, hx, rfl⟩ := List.mem_map.mp ht
+    exact hwf x hx
+
+/-- (2) `n3()` never nests: a member that is itself the head of a collection (a blank node `_:d`) is written by
+    its own label and the reader returns that head; with an IRI, an escaped plain literal `a"\`, a typed and a
+    language-tagged literal -/
+def exTerms : List RTerm :=
+  [.iri ['e'], .bnode ['d'], .lit ['a', '"', '\\'] none none, .lit ['0'] (some ['i']) none, .lit [] none (some ['e', 'n'])]
+
+example : String.ofList (n3Text tokR exTerms) = "( <e> _:d \"a\\\"\\\\\" \"0\"^^<i> \"\"@en )" := by decide
+example : readN3 lexR (n3Text tokR exTerms) = some exTerms := by decide
+
+/-! ### Round h (3): the second collection's other reads -/
+
+/-- Like `disjoint_second_keeps_list_partial`, for everything read through the other collection's own head:
+    `len(c2)`, `list(c2)`, `x in c2`, `c2[i]` (any integer index) and `c2.n3()` answer after an operation through
+    `h` exactly what they answered before. -/
+theorem disjoint_second_reads_partial :
+    ∀ (F : Term → Bool) (s : St) (h h2 : Term) (xs : List Term) (op : Op),
+      F h = false → F NIL = false → (∀ n, s.fresh ≤ n → F n = false) →
+      WF ⟨own F s.g, s.fresh⟩ h → asList (own F s.g) h = .ok xs → isSetAtLen xs.length op = false →
+      F h2 = true → (∀ c o, F c = true → (c, REST, o) ∈ s.g → F o = true ∨ o = NIL) →
+      len (step h s op).1.g h2 = len s.g h2 ∧ iter (step h s op).1.g h2 = iter s.g h2 ∧
+        (∀ x, contains (step h s op).1.g h2 x = contains s.g h2 x) ∧
+        (∀ i, getItem (step h s op).1.g h2 i = getItem s.g h2 i) ∧
+        ∀ tok, n3 tok (step h s op).1.g h2 = n3 tok s.g h2 := by
+  intro F s h h2 xs op hh hn hfr wf ha hok h2F hcl
+  obtain ⟨_, e2, e3, e4⟩ := coll_separation F s h op hh hn hfr wf
+  obtain ⟨_, ⟨ps', inv'⟩, _⟩ := coll_refines_partial ⟨own F s.g, s.fresh⟩ h xs op wf ha hok
+  obtain ⟨ps, inv⟩ := wf
+  have hst : (step h ⟨own F s.g, s.fresh⟩ op).1 = ⟨own F (step h s op).1.g, (step h s op).1.fresh⟩ := by
+    rw [e2, e3]
+  rw [hst] at inv'
+  obtain ⟨h1, h2, h3, h4⟩ := reads_second e4
+    (fun p hp => ⟨value_nil_of_own_inv hn inv hp, value_nil_of_own_inv hn inv' hp⟩) h2F hcl
+  exact ⟨h1, h2, h3, h4, fun tok => by simp only [n3, h2]⟩
+
 end RV.C19
